@@ -146,17 +146,10 @@ def r3_sole(facts, rep):
                     Sym("mod_power"), T("i*", Sym("mod_power"), Sym("side")), T("i*", Sym("side"), Sym("mod_power")))
                 rep.ob("C09-R3", "reconstruct", good,
                        "reconstruct sheds a re-derived unit with apply_conversion(power=%r, inverse=%r, sole=%r)" % (power, inverse, sole))
-            # "sole" must count the map as it is once the re-derived unit is in it: the size is taken after the last change
-            log = list(r["log"])
-            ci = [i for i, e in enumerate(log) if e[0] == "conv"]
-            if ci:
-                nm = lambda x: getattr(x, "name", x)
-                li = [i for i, e in enumerate(log[:ci[0]]) if e[0] == "len" and nm(e[1]) == "names"]
-                mi = [i for i, e in enumerate(log) if e[0] in ("insert", "remove") and nm(e[1]) == "names"]
-                late = [log[i] for i in mi if li and i > li[-1]]
-                rep.ob("C09-R3", "reconstruct:size-after-changes", bool(li) and not late,
-                       "the size that decides `sole` is taken after every change of the map" if li and not late else
-                       ("the map is still changed (%s) after its size was taken for `sole`" % (late[:1],) if li else "no size of the map is taken before the conversion"))
+            # (Until /repo's 42759a9 the size that decides `sole` also had to be taken after the re-derived unit was back in the
+            # map: a scale judged "alone" too early had its zero point shed from the *other* operand's value.  Since each
+            # operand's units are re-derived on its own value (C04-R9), an early size only turns a refusal into the interval
+            # reading, which the property allows; the obligation was withdrawn together with seed C09-8.)
         rep.floor("C09-R3", "conversion calls in reconstruct's summary", n, 1)
     # who calls apply_conversion at all
     from .common import census
